@@ -3,7 +3,7 @@
 From BV Require Import Common.Base Common.PyList Common.Tx Common.ScriptFlags
   Gen.ScriptConsts Gen.EvalConsts Model.Script Model.FindAndDelete Model.ScriptEval
   Spec.Script Spec.ScriptRef Proofs.ScriptStack Proofs.ScriptNum Proofs.ScriptIter Proofs.FindAndDelete
-  Proofs.ScriptEval Proofs.ScriptSig.
+  Proofs.ScriptEval Proofs.ScriptSig Proofs.ScriptPred.
 
 Lemma consecutive_app a : forall off b, consecutive off (a ++ b) -> consecutive (off + lenZ (ops_bytes a)) b.
 Proof.
@@ -103,7 +103,7 @@ Lemma loop_full : forall rem done r pb fuel,
   all = done ++ rem -> (length (ops_bytes rem ++ tail) <= fuel)%nat -> inv r -> CI r pb ->
   (unparsed /\ exists e, run_ops scriptIn (abs r pb) rem = Err e /\ is_script_err e = true) \/
   match eval_loop fuel (ops_bytes rem ++ tail) r with
-  | Some r' => err = None /\ exists pb', run_ops scriptIn (abs r pb) rem = Ok (abs r' pb')
+  | Some r' => inv r' /\ err = None /\ exists pb', run_ops scriptIn (abs r pb) rem = Ok (abs r' pb')
   | None => run_ops scriptIn (abs r pb) rem = Err EvalErr \/ (unparsed /\ exists s', run_ops scriptIn (abs r pb) rem = Ok s')
   end.
 Proof.
@@ -114,7 +114,7 @@ Proof.
     + destruct TAIL as [SE OV]. destruct (overrun_get_op tail OV) as (NE & e' & G & _).
       destruct tail as [|c t]; [congruence|]. destruct fuel; [cbn in LF; lia|].
       cbn [ScriptRef.eval_loop]. rewrite G. right. split; [unfold unparsed; rewrite EE; exact Logic.I|]. eexists; reflexivity.
-    + rewrite TAIL. destruct fuel; cbn [ScriptRef.eval_loop app]; (split; [reflexivity|exists pb; reflexivity]).
+    + rewrite TAIL. destruct fuel; cbn [ScriptRef.eval_loop app]; (split; [exact I|split; [reflexivity|exists pb; reflexivity]]).
   - assert (Wo : sop_wf o).
     { rewrite Forall_forall in W. apply W. rewrite EA. apply in_or_app. right. left. reflexivity. }
     rewrite ops_bytes_cons, <- app_assoc in LF |- *.
@@ -180,10 +180,11 @@ Theorem eval_full checksig ripemd160 sha1 sha256 fl :
   (forall x, small (ripemd160 x) /\ small (sha1 x) /\ small (sha256 x)) ->
   forall scriptIn st, Forall small st -> lenZ st < 2^31 ->
   eval_script checksig ripemd160 sha1 sha256 fl (rev st) scriptIn
-  = match eval_ref checksig ripemd160 sha1 sha256 fl st scriptIn with Some fin => Ok (rev fin) | None => Err EvalErr end.
+  = match eval_ref checksig ripemd160 sha1 sha256 fl st scriptIn with Some fin => Ok (rev fin) | None => Err EvalErr end
+  /\ (forall fin, eval_ref checksig ripemd160 sha1 sha256 fl st scriptIn = Some fin -> Forall small fin /\ lenZ fin < 2^31).
 Proof.
   intros CE HS scriptIn st S1 S2. unfold eval_script, eval_script_raw, eval_ref.
-  change MAX_SCRIPT_SIZE with 10000. destruct (lenZ scriptIn >? 10000); [reflexivity|].
+  change MAX_SCRIPT_SIZE with 10000. destruct (lenZ scriptIn >? 10000); [split; [reflexivity|discriminate]|].
   destruct (raw_iter scriptIn) as [all err] eqn:RI.
   destruct (raw_iter_sound scriptIn all err RI) as (W & C & tail & SB & TN & TS).
   assert (TAIL : match err with None => tail = [] | Some e => is_script_err e = true /\ overrun tail end)
@@ -200,11 +201,98 @@ Proof.
   - (* a FindAndDelete inside a signature opcode met the undecodable tail *)
     rewrite RE. cbn [bind]. rewrite SE.
     pose proof (eval_loop_unparsed checksig ripemd160 sha1 sha256 fl scriptIn all tail err SB TAIL U all W r0 (length scriptIn)) as EU.
-    rewrite <- SB in EU. rewrite EU. reflexivity.
+    rewrite <- SB in EU. rewrite EU. split; [reflexivity|discriminate].
   - destruct (eval_loop checksig ripemd160 sha1 sha256 fl (length scriptIn) scriptIn r0) as [r'|].
-    + destruct LF as [-> [pb' ->]]. cbn [bind]. unfold abs. cbn [vfExec stack]. rewrite len_rev.
-      destruct (r_vf r') as [|b vf']; [reflexivity|]. cbn [is_nil].
-      destruct (Z.eqb_spec (len (b :: vf')) 0) as [E|E]; [rewrite len_cons in E; pose proof (len_nonneg vf'); lia|reflexivity].
-    + destruct LF as [-> | (U & s' & ->)]; cbn [bind]; [reflexivity|].
+    + destruct LF as [I' [-> [pb' ->]]]. cbn [bind]. unfold abs. cbn [vfExec stack]. rewrite len_rev.
+      destruct (r_vf r') as [|b vf']; cbn [is_nil].
+      * split; [reflexivity|]. intros fin E. injection E as <-. destruct I' as ((A & _) & B & _). auto.
+      * destruct (Z.eqb_spec (len (b :: vf')) 0) as [E|E]; [rewrite len_cons in E; pose proof (len_nonneg vf'); lia|].
+        split; [reflexivity|discriminate].
+    + split; [|discriminate]. destruct LF as [-> | (U & s' & ->)]; cbn [bind]; [reflexivity|].
       unfold unparsed in U. destruct err as [e|]; [|contradiction]. destruct TAIL as [SE _]. rewrite SE. reflexivity.
 Qed.
+
+(* ================= VerifyScript ================= *)
+Lemma p2sh_on_empty checksig ripemd160 sha1 sha256 fl spk :
+  ref_p2sh spk = true -> eval_ref checksig ripemd160 sha1 sha256 fl [] spk = None.
+Proof.
+  unfold ref_p2sh. intros H. apply andb_true_iff in H as [H H3]. apply andb_true_iff in H as [H1 H2].
+  apply Nat.eqb_eq in H1. apply bytes_eqb_eq in H2.
+  destruct spk as [|b0 [|b1 t]]; try discriminate H1. cbn [firstn] in H2. injection H2 as -> ->.
+  unfold eval_ref. destruct (lenZ _ >? 10000); [reflexivity|].
+  rewrite H1. cbn [ScriptRef.eval_loop]. reflexivity.
+Qed.
+
+Section Verify.
+Variable checksig : bytes -> bytes -> bytes -> bool.
+Variable ripemd160 sha1 sha256 : bytes -> bytes.
+Variable fl : flags.
+Hypothesis checksig_empty : forall pk code, checksig [] pk code = false.
+Hypothesis hash_small : forall x, small (ripemd160 x) /\ small (sha1 x) /\ small (sha256 x).
+Hypothesis flags_ok : f_cleanstack fl = true -> f_p2sh fl = true.
+Notation eval_script := (eval_script checksig ripemd160 sha1 sha256 fl).
+Notation eval_ref := (eval_ref checksig ripemd160 sha1 sha256 fl).
+Notation verify_script := (verify_script checksig ripemd160 sha1 sha256 fl).
+Notation verify_ref := (verify_ref checksig ripemd160 sha1 sha256 fl).
+
+Lemma eval_eq st s : Forall small st -> lenZ st < 2^31 ->
+  eval_script (rev st) s = match eval_ref st s with Some fin => Ok (rev fin) | None => Err EvalErr end.
+Proof. intros A B. exact (proj1 (eval_full checksig ripemd160 sha1 sha256 fl checksig_empty hash_small s st A B)). Qed.
+Lemma eval_inv st s fin : Forall small st -> lenZ st < 2^31 -> eval_ref st s = Some fin -> Forall small fin /\ lenZ fin < 2^31.
+Proof. intros A B. exact (proj2 (eval_full checksig ripemd160 sha1 sha256 fl checksig_empty hash_small s st A B) fin). Qed.
+
+Lemma top_rev (x : bytes) st : py_nth (rev (x :: st)) (-1) = Ok x.
+Proof. apply (py_nth_rev (x :: st) 1 x); [lia|reflexivity]. Qed.
+
+(* VerifyScript accepts exactly when the reference accepts; every rejection is an
+   EvalScriptError or a VerifyScriptError *)
+Theorem verify_full ssig spk :
+  match verify_script ssig spk with
+  | Ok _ => verify_ref ssig spk = true
+  | Err e => verify_ref ssig spk = false /\ (e = EvalErr \/ e = VerifyErr)
+  end.
+Proof.
+  unfold ScriptEval.verify_script, ScriptRef.verify_ref.
+  change (@nil bytes) with (rev (@nil bytes)) at 1.
+  rewrite (eval_eq [] ssig) by (try constructor; unfold lenZ; simpl; lia).
+  destruct (eval_ref [] ssig) as [st1|] eqn:E1; cbn [bind]; [|split; [reflexivity|left; reflexivity]].
+  destruct (eval_inv [] ssig st1 ltac:(constructor) ltac:(unfold lenZ; simpl; lia) E1) as [A1 B1].
+  rewrite (eval_eq st1 spk A1 B1).
+  destruct (eval_ref st1 spk) as [st2|] eqn:E2; cbn [bind]; [|split; [reflexivity|left; reflexivity]].
+  destruct (eval_inv st1 spk st2 A1 B1 E2) as [A2 B2].
+  rewrite len_rev. destruct st2 as [|top st2].
+  { cbn [len length Z.of_nat Z.eqb bind]. split; [reflexivity|right; reflexivity]. }
+  destruct (Z.eqb_spec (len (top :: st2)) 0) as [EZ1|EZ1]; [rewrite len_cons in EZ1; pose proof (len_nonneg st2); lia|]. cbn [bind].
+  rewrite top_rev. cbn [bind]. rewrite cast_to_bool_ref.
+  destruct (ref_bool top); cbn [negb bind]; [|split; [reflexivity|right; reflexivity]].
+  rewrite (is_p2sh_spec spk).
+  assert (P : (if f_p2sh fl then Ok (ref_p2sh spk) else Ok false) = Ok (f_p2sh fl && ref_p2sh spk)) by (destruct (f_p2sh fl); reflexivity).
+  rewrite P. cbn [bind]. clear P.
+  assert (CS : forall st3 : list bytes,
+     (if f_cleanstack fl then if negb (f_p2sh fl) then Err AssertionError else if negb (len (rev st3) =? 1) then @vfail unit else Ok tt else Ok tt)
+     = if (if f_cleanstack fl then (length st3 =? 1)%nat else true) then Ok tt else Err VerifyErr).
+  { intros st3. destruct (f_cleanstack fl) eqn:FC; [|reflexivity]. rewrite (flags_ok eq_refl). cbn [negb].
+    rewrite len_rev. unfold len. destruct (Nat.eqb_spec (length st3) 1) as [L|L].
+    - rewrite L. reflexivity.
+    - destruct (Z.eqb_spec (Z.of_nat (length st3)) 1); [lia|reflexivity]. }
+  destruct (f_p2sh fl && ref_p2sh spk) eqn:P2.
+  - rewrite (is_push_only_spec ssig). cbn [bind].
+    destruct (ref_push_only ssig); cbn [negb bind]; [|split; [reflexivity|right; reflexivity]].
+    rewrite len_rev. destruct st1 as [|redeem st1].
+    { (* impossible: a P2SH scriptPubKey fails on the empty stack *)
+      apply andb_true_iff in P2 as [_ P2]. rewrite (p2sh_on_empty checksig ripemd160 sha1 sha256 fl spk P2) in E2. discriminate E2. }
+    destruct (Z.eqb_spec (len (redeem :: st1)) 0) as [EZ2|EZ2]; [rewrite len_cons in EZ2; pose proof (len_nonneg st1); lia|]. cbn [bind].
+    rewrite py_pop_rev. cbn [bind fst snd].
+    inversion A1 as [|? ? Ar A1']; subst.
+    assert (B1' : lenZ st1 < 2^31) by (unfold lenZ in *; cbn [length] in B1; lia).
+    rewrite (eval_eq st1 redeem A1' B1').
+    destruct (eval_ref st1 redeem) as [st3|] eqn:E3; cbn [bind]; [|split; [reflexivity|left; reflexivity]].
+    rewrite len_rev. destruct st3 as [|t3 st3].
+    { cbn [len length Z.of_nat Z.eqb bind]. split; [reflexivity|right; reflexivity]. }
+    destruct (Z.eqb_spec (len (t3 :: st3)) 0) as [EZ3|EZ3]; [rewrite len_cons in EZ3; pose proof (len_nonneg st3); lia|]. cbn [bind].
+    rewrite top_rev. cbn [bind]. rewrite cast_to_bool_ref.
+    destruct (ref_bool t3); cbn [negb bind]; [|split; [reflexivity|right; reflexivity]].
+    rewrite CS. destruct (if f_cleanstack fl then _ else true); [reflexivity|split; [reflexivity|right; reflexivity]].
+  - cbn [bind]. rewrite CS. destruct (if f_cleanstack fl then _ else true); [reflexivity|split; [reflexivity|right; reflexivity]].
+Qed.
+End Verify.
